@@ -366,8 +366,11 @@ def main():
         res = run_action(action, args)
         if not args.get('no_facts'):
             try:
+                swap = bool(os.environ.get('PL_SWAP'))
                 for alias in settings.DATABASES:
-                    key = 'after' if alias == 'default' else 'after_' + alias
+                    # (decoy mode: the observed database is `other`)
+                    key = 'after' if alias == (
+                        'other' if swap else 'default') else 'after_' + alias
                     res[key] = sig_facts(alias)
             except Exception as e:
                 res['after_error'] = '%s: %s' % (type(e).__name__,
